@@ -1,6 +1,7 @@
 SPECIFICATION Spec
 CONSTANTS
   GuardReserved = FALSE
+  GuardNul = TRUE
   UseEscapedPath = TRUE
   MaxOps = 2
   MaxSegs = 3
